@@ -345,7 +345,7 @@ class Ctx:
         self.assumptions = []
         self.extra = {}
         self.escalated = False
-        if os.path.isdir(REPLAYS):
+        if replay is None and os.path.isdir(REPLAYS):
             for f in os.listdir(REPLAYS):
                 if f.startswith(pid + "-"):
                     os.remove(os.path.join(REPLAYS, f))
